@@ -254,7 +254,8 @@ class DULServiceProvider(threading.Thread):
         # type: () -> bool
         # There is something to read
         try:
-            data = self.dul_socket.recv(self.max_pdu_length)
+            # a maximum length of 0 means "no limit"; recv(0) would look like a closed connection
+            data = self.dul_socket.recv(self.max_pdu_length or 65536)
         except socket.error:
             self.event.append(fsm.Events.EVT_17)
             self.dul_socket.close()
